@@ -53,6 +53,12 @@ Judge(e) ==
       [] e.ev = "call"     -> J_call(e)
       [] e.ev = "range"    -> J_range(e)
       [] e.ev = "extract"  -> J_extract(e)
+      [] e.ev = "coilrepeat" ->
+            IF e.outcome = "panic" THEN "panic"
+            ELSE IF e.payloadAfter # <<165, 60, 15>> THEN "payload-changed-by-read"
+            ELSE IF e.fieldsAfter # e.fieldsBefore THEN "extraction-changed-the-request-it-was-given"
+            ELSE IF e.second # e.first THEN "repeated-extraction-gives-different-results"
+            ELSE "ok"
       [] e.ev = "race"     -> "data-race-in-library-code-between-independent-register-views"
       [] OTHER             -> "unknown-event"
 
